@@ -2,6 +2,8 @@
 seam, recording listeners."""
 from __future__ import annotations
 
+import logging
+
 import someip.config
 import someip.header
 import someip.sd
@@ -109,6 +111,36 @@ class ServerRec(someip.sd.ServerServiceListener):
 
     def _canon_(self, now):
         return ("ServerRec", self.name, tuple(sorted(self.reject)))
+
+
+class LogCapture(logging.Handler):
+    """the library's log_exceptions decorator swallows exceptions of tasks and logs them; that
+    log record is the only trace, so it is captured as an observation"""
+
+    def __init__(self):
+        super().__init__(level=logging.ERROR)
+        self.records = []
+
+    def emit(self, record):
+        if record.exc_info and str(record.msg).startswith("unhandled exception"):
+            exc = record.exc_info[1]
+            self.records.append((str(record.getMessage()), type(exc).__name__, str(exc)))
+
+
+CAPTURE = LogCapture()
+
+
+def install_log_capture():
+    """idempotent; everything below ERROR is filtered at the logger (cheap)"""
+    logging.disable(logging.NOTSET)
+    for name in ("someip",):
+        lg = logging.getLogger(name)
+        lg.setLevel(logging.ERROR)
+        lg.propagate = False
+        if CAPTURE not in lg.handlers:
+            lg.handlers[:] = [CAPTURE]
+    CAPTURE.records.clear()
+    return CAPTURE
 
 
 def deliver(prot, data: bytes, addr, multicast: bool):
